@@ -50,7 +50,16 @@ fn panic_msg(e: Box<dyn std::any::Any + Send>) -> String {
     }
 }
 
+/// Write-ahead record of the input about to be decoded (VERIF_WAL=<file>): an allocation failure aborts the process without
+/// unwinding, and the driver then reports the input found here.
+pub fn write_ahead(bytes: &[u8]) {
+    if let Ok(p) = std::env::var("VERIF_WAL") {
+        let _ = std::fs::write(p, hex(bytes));
+    }
+}
+
 pub fn decode<C: Cv>(bytes: &[u8]) -> (String, Option<R1CSProof<C::G>>) {
+    write_ahead(bytes);
     match catch_unwind(AssertUnwindSafe(|| R1CSProof::<C::G>::from_bytes(bytes))) {
         Ok(Ok(p)) => ("ok".into(), Some(p)),
         Ok(Err(e)) => (err_name(&e).to_string(), None),
